@@ -33,6 +33,9 @@ func init() {
 	})
 }
 
+// TypesUnderTest lists the exported TL-B types (shared with C08).
+func TypesUnderTest() []registry.Entry { return typesUnderTest() }
+
 func typesUnderTest() []registry.Entry {
 	var out []registry.Entry
 	for _, p := range []string{"tlb.", "wallet.", "abi."} {
